@@ -16,8 +16,11 @@ def run(ctx):
     T = 300 if ctx.quick() else 900
     jobs = [Job("c09.py", "h_step", {"pool": ["a.py", "d/a.py"], "ncont": 2}, T, 60, tag="2 paths x 2 contents", meta={"sigtag": "cache-step"}),
             Job("c09.py", "h_read_report", {}, T, 30, tag="version guard of report/findings"),
-            Job("c09.py", "h_step_altered", {"pool": ["a.py", "d/a.py"], "ncont": 2}, T, 60, tag="cache with an altered (inconsistent) entry", meta={"sigtag": "cache-step:altered"})]
-    ctx.bounds = {"quick": "2 pool paths (one nested) x {absent, content 0, content 1} x cache {absent | per path: absent / analysis of content 0 / of content 1} x {same, other version}: all 162 states",
+            Job("c09.py", "h_step_altered", {"pool": ["a.py", "d/a.py"], "ncont": 2}, T, 60, tag="cache with an altered (inconsistent) entry", meta={"sigtag": "cache-step:altered"}),
+            Job("c09.py", "h_checksum", {"pool": ["a.py"], "ncont": 2}, T, 60, tag="calculate_checksum = md5 of the whole file: 10 sizes x 13 offsets of a one-byte change", meta={"sigtag": "checksum"})]
+    ctx.functions.append("common.utils.calculate_checksum (real, over an in-memory binary stream)")
+    ctx.bounds = {"checksum": "files of 0..200001 bytes (around 4 KiB / 8 KiB / 64 KiB / 128 KiB block sizes) with one byte changed at 13 offsets: the checksum is the md5 of all bytes, so the change shows",
+                  "quick": "2 pool paths (one nested) x {absent, content 0, content 1} x cache {absent | per path: absent / analysis of content 0 / of content 1} x {same, other version}: all 162 states",
                   "altered entries": "same states with the first cached entry altered: functions dropped ([] / {}) or line total changed - such a cache must not be reused",
                   "read_report": "cache file present/absent x version in {missing key, empty, other, running, running+space, 'v'+running}"}
     if ctx.quick():
